@@ -184,8 +184,10 @@ func (d *Decoder) Decode(pkt *rtp.Packet) ([]byte, error) {
 			errSize, maxFrameSize)
 	}
 
-	d.sliceBuffer = append(d.sliceBuffer, slice)
-	d.sliceBufferSize += addSize
+	if addSize != 0 { // a slice without data is not retained
+		d.sliceBuffer = append(d.sliceBuffer, slice)
+		d.sliceBufferSize += addSize
+	}
 
 	if !pkt.Marker {
 		return nil, ErrMorePacketsNeeded
